@@ -29,14 +29,21 @@ def chain(depth, types=MIX, rev=False, outputs=None):
     return c, ['x', 'y'] + names
 
 
-def transform_case(prop, what, src, fn, types=MIX, not_larger=True, allowed=()):
-    """Records  res = fn(circuit)  on a deep chain as a case of kind transformdeep."""
+def transform_case(prop, what, src, fn, types=MIX, not_larger=True, allowed=(), prepare=None):
+    """Records  res = fn(circuit)  on a deep chain as a case of kind transformdeep.  prepare(circuit, order): optional set-up
+    (blocks) before the projection of the original is taken."""
     c, order = chain(src['depth'], types, rev=src.get('rev', False))
-    case = {'kind': 'transformdeep', 'prop': prop, 'what': what, 'orig': project(c, users=False, blocks=False), 'order': order,
+    blocks = False
+    if prepare is not None:
+        prepare(c, order)
+        blocks = True
+    case = {'kind': 'transformdeep', 'prop': prop, 'what': what, 'orig': project(c, users=False, blocks=blocks), 'order': order,
             'exc': '', 'not_larger': bool(not_larger), 'types': list(allowed), 'src': src}
+    if blocks:
+        case['check_helper_blocks'] = True
     try:
         res = fn(c)
-        case['res'] = project(res, users=False, blocks=False)
+        case['res'] = project(res, users=False, blocks=blocks)
         case['res_order'] = [g.label for g in res.top_sort(inverse=True)]
     except Exception as e:
         case['exc'] = type(e).__name__
